@@ -74,6 +74,26 @@ package extract
 //@   ensures result-name-and-type: results[j] == sign.Results().At(j).Name() + " " + types.TypeString(sign.Results().At(j).Type(), qualify)
 //@   ensures other-entries-untouched: forall(k, 0, len(results), k != j ==> results[k] == old(results[k]))
 
+// One method of an interface wrapper (one arbitrary iteration of the method loop of genContent): an exported
+// method gets exactly one entry, appended after the entries of the methods before it, named after the method
+// and rendered from the signature of THAT method of THAT interface (the strings built by the two loops
+// above); an unexported method gets none.
+//@ lit Extractor.genContent for:NumMethods () ()
+//@   props C18
+//@   opt safety = off
+//@   opt loops = havoc
+//@   opt opaque-calls = *
+//@   opt opaque-havoc = none
+//@   opt uf-lib = strings.Join
+//@   opt record-calls = Type
+//@   requires [assume] t != nil
+//@   ensures unexported-method-skipped: !t.Method(i).Exported() ==> len(methods) == old(len(methods))
+//@   ensures exported-method-gets-one-entry: t.Method(i).Exported() ==> len(methods) == old(len(methods)) + 1 && methods[len(methods)-1].Name == t.Method(i).Name()
+//@   ensures the-signature-of-this-method-is-consulted: t.Method(i).Exported() ==> called(Type) && lastRecv(Type) == t.Method(i)
+//@   ensures [local:sign] rendered-from-the-signature-of-this-method: t.Method(i).Exported() ==> sign == t.Method(i).Type().(*types.Signature)
+//@   ensures [local:sign;local:params;local:args;local:results] entry-is-the-rendering: t.Method(i).Exported() ==> methods[len(methods)-1].Param == "(" + strings.Join(params, ", ") + ")" && methods[len(methods)-1].Arg == "(" + strings.Join(args, ", ") + ")" && methods[len(methods)-1].Result == "(" + strings.Join(results, ", ") + ")" && methods[len(methods)-1].Ret == ite(sign.Results().Len() > 0, "return", "")
+//@   ensures earlier-entries-kept: forall(k, 0, old(len(methods)), methods[k].Name == old(methods[k].Name) && methods[k].Param == old(methods[k].Param) && methods[k].Arg == old(methods[k].Arg) && methods[k].Result == old(methods[k].Result) && methods[k].Ret == old(methods[k].Ret))
+
 // The build-tag line of a generated file: the release it was generated with (go1.N), and, unless that is
 // the newest release the tool knows, the exclusion of the next one (go1.N,!go1.N+1) — so that each
 // release selects exactly its own set of files.  Development versions are refused.
